@@ -105,6 +105,22 @@ Proof.
   intros cap handler evs s rs R. destruct (run_accepted _ _ _ _ _ R) as [A B]. cbn in A. auto.
 Qed.
 
+(* the macro-step view used by the correspondence harness ([acts]: one scripted action, then
+   the internal steps that need no decision of the environment) only visits reachable states of
+   the small-step machine, so every theorem of this file applies to what the harness observes;
+   after each action no internal step is left enabled *)
+Theorem c08_harness_view : forall cap handler l,
+  let s := fst (acts true (init_q cap handler) l) in
+  (exists evs rs, run true (init_q cap handler) evs = Some (s, rs)) /\
+  map fst (q_delivered s) ++ inflight (q_wk s) ++ somes (q_chan s) = seq 0 (q_accepted s).
+Proof.
+  intros cap handler l s. destruct (acts_reach cap handler l) as (evs & rs & R & HI).
+  split; [exists evs, rs; exact R | exact (I_commit _ HI)].
+Qed.
+
+Theorem c08_settled : forall fixed s, internal_step fixed (settle fixed (fuel_of s) s) = None.
+Proof. intros fixed s. apply settle_done. apply mu_fuel_of. Qed.
+
 (* the pinned tree violates C08 (defect D2), for every capacity except rendezvous and every
    handler setting: a clone is dropped, the shared worker takes its marker and exits; the emit
    on the surviving handle returns Ok (identity 0) and is never delivered — under ANY
